@@ -902,6 +902,7 @@ func (d *Driver) writeShape(b *BlobState) (int64, int) {
 // (Quiesce): writes by the writer and reads by any client, with the shapes of the random scheduler.
 // It is the cheap way to get a client's caches into a non-trivial state between random-schedule rounds.
 func (d *Driver) Burst(n int) {
+	d.Cl.S.SetAuto(false)
 	for i := 0; i < n && len(d.Blobs) > 0; i++ {
 		b := d.Blobs[d.R.Intn(len(d.Blobs))]
 		if d.R.Chance(2, 5) && d.NextWid < 240 {
